@@ -859,7 +859,7 @@ def ic_walk_stage(out, q, seed, err_filter, name="index-walks"):
 
 
 FS_INV = ["Denote", "LenOK", "GetOK", "RegionShaped", "IndexBytesZero", "IndexCost"]
-FS_OPS_ALL = ["copy", "extend", "from_iter", "clear", "with_capacity", "merge_capacity", "reserve", "reserve_regions",
+FS_OPS_ALL = ["copy", "extend", "from_iter", "clear", "with_capacity", "merge_capacity", "reserve", "reserve_items", "reserve_regions",
               "clone", "clone_from", "serde"]
 
 
@@ -979,7 +979,7 @@ def run_property(prop, tier, seed):
         region_stage(out, "reserve-merge", prop, allnames, 2, 3 if q else 4, 2, 3,
                      ["push", "clear", "reserve_items", "reserve_regions", "merge"])
         stack_stage(out, "flatstack", prop, stack_names(), 4, 2, 3,
-                    ["copy", "extend", "clear", "reserve", "reserve_regions", "with_capacity", "merge_capacity"])
+                    ["copy", "extend", "clear", "reserve", "reserve_items", "reserve_regions", "with_capacity", "merge_capacity"])
         # merged coded regions read back what is pushed, within their acceptance contract
         coded_stage(out, q, seed, lambda e: e["why"] in ("merge-panicked", "read-failed", "read-differs", "read-back-differs",
                                                          "push-panicked", "ambiguous-input-accepted", "reserve-changed-reads",
